@@ -96,6 +96,19 @@ end MintParams
 def mintBeginBlock (cfg : Cfg) (p : Mint.Params) (m : Mint.Minter) (height supply : Int) : Mint.Minter × Mint.BlockRes :=
   Mint.beginBlock p m height (if cfg.mintClamp && decide (supply < p.exclude) then p.exclude else supply)
 
+/-- BeginBlock of x/mint on the chain (supply, fee collector, minter) of the tree selected by `cfg`;
+    with no patch this is `Mint.Chain.begin` -/
+def mintChainBegin (cfg : Cfg) (p : Mint.Params) (c : Mint.Chain) (h : Int) : Mint.Chain :=
+  if c.halted then c else
+  match mintBeginBlock cfg p c.minter h c.supply with
+  | (m, .ok n) => { supply := c.supply + n, collector := c.collector + n, minter := m, halted := false }
+  | (_, .halt) => { c with halted := true }
+
+/-- `n` consecutive blocks starting at height `h` -/
+def mintRun (cfg : Cfg) (p : Mint.Params) : Nat → Int → Mint.Chain → Mint.Chain
+  | 0, _, c => c
+  | n + 1, h, c => mintRun cfg p n (h + 1) (mintChainBegin cfg p c h)
+
 -- ---------------------------------------------------------------------------------------------
 -- x/bet
 
